@@ -5,6 +5,7 @@ package main
 
 import (
 	"fmt"
+	"math"
 	"math/rand"
 	"sort"
 	"strings"
@@ -59,7 +60,14 @@ func (g *gen) role() string {
 	}
 }
 
-func (g *gen) index() int { return []int{0, 0, 1, 2, 5}[g.rng.Intn(5)] }
+// index: mostly small values; sometimes values at the ends of the int range (the statement says
+// "arbitrary indexes"; comparisons must not depend on the distance between two indexes).
+func (g *gen) index() int {
+	if g.rng.Intn(8) == 0 {
+		return []int{-1, -3, math.MaxInt64, math.MinInt64, math.MaxInt64 - 1, math.MinInt64 + 1}[g.rng.Intn(6)]
+	}
+	return []int{0, 0, 1, 2, 5}[g.rng.Intn(5)]
+}
 
 // rule generates a rule of the given group ("" = random) ; malformed with small probability.
 func (g *gen) rule(group, id string) ruleSpec {
@@ -109,7 +117,11 @@ func (g *gen) group(id string) groupSpec {
 	if id == "" {
 		id = g.pick(groupIDs)
 	}
-	return groupSpec{ID: id, Index: []int{0, 0, 1, 2, 3}[g.rng.Intn(5)], Override: g.rng.Intn(4) == 0}
+	gi := []int{0, 0, 1, 2, 3}[g.rng.Intn(5)]
+	if g.rng.Intn(8) == 0 {
+		gi = []int{-1, math.MaxInt64, math.MinInt64, -2}[g.rng.Intn(4)]
+	}
+	return groupSpec{ID: id, Index: gi, Override: g.rng.Intn(4) == 0}
 }
 
 func (g *gen) bundle(id string) bundleSpec {
